@@ -56,6 +56,12 @@ func C19() int {
 				twinLines++
 			}
 		}
+		if i%3 == 2 {
+			// lines that are not log entries (they contribute nothing to either pass): JSON of another kind, torn lines, text
+			for _, x := range []string{`[1,2,3]`, `"just a string"`, `{"t":{"$date":"2025-01-01T00:00:00.000Z"},"s":"I","c":"COMMAND","attr":{"torn":`, `2025-01-01T00:00:00.000+0000 I NETWORK [conn1] text line`, ``, `null`}[:2+i%5] {
+				buf.WriteString(x + "\n")
+			}
+		}
 		files = append(files, buf.Bytes())
 	}
 	// the systematic slot × class catalogue (every operator family, large arrays, deep nesting), 40 lines per file
@@ -113,7 +119,18 @@ func C19() int {
 			os.WriteFile(o2, stale, 0o644)
 			c.Count("runs_onto_existing_longer_output_files", 1)
 		}
-		r1 := s.CLI(sut.Run{Args: append(append([]string{"redact"}, fa...), in, "-o", o1), Dir: dir})
+		toStdout := ji%4 == 1 && !jb.f.Enc
+		pass := func(src, dst string) sut.Result {
+			if toStdout {
+				// through standard output (redirected into the file): what the tool prints there IS the redacted log
+				return s.CLI(sut.Run{Args: append(append([]string{"redact"}, fa...), src), Dir: dir, StdoutFile: dst})
+			}
+			return s.CLI(sut.Run{Args: append(append([]string{"redact"}, fa...), src, "-o", dst), Dir: dir})
+		}
+		if toStdout {
+			c.Count("two_pass_runs_through_stdout", 1)
+		}
+		r1 := pass(in, o1)
 		if ji%3 == 0 && r1.Exit == 0 {
 			// calibrate: pad one input line so that its REDACTED line is exactly k×4096 bytes long — the
 			// second pass then reads a line that ends exactly on a reader-buffer boundary
@@ -138,7 +155,7 @@ func C19() int {
 						inLines[objIn[k]] = padded
 						calibrated := append(bytes.Join(inLines, []byte("\n")), '\n')
 						os.WriteFile(in, calibrated, 0o644)
-						r1 = s.CLI(sut.Run{Args: append(append([]string{"redact"}, fa...), in, "-o", o1), Dir: dir})
+						r1 = pass(in, o1)
 						if b1c, _ := os.ReadFile(o1); len(splitLines(b1c)) == len(outLines) && len(splitLines(b1c)[k]) == target {
 							c.Count("files_with_an_output_line_of_exactly_k_x_4096_bytes", 1)
 						}
@@ -146,7 +163,7 @@ func C19() int {
 				}
 			}
 		}
-		r2 := s.CLI(sut.Run{Args: append(append([]string{"redact"}, fa...), o1, "-o", o2), Dir: dir})
+		r2 := pass(o1, o2)
 		if r1.TimedOut || r2.TimedOut {
 			c.Inconclusive("watchdog fired")
 			return
